@@ -558,6 +558,46 @@ pub fn run(tier: Tier) -> i32 {
 }
 
 pub fn replay(case: &J) -> i32 {
-    eprintln!("C07 cases name store, requests and crash point; re-run ./check C07 to reproduce deterministically: {}", case.to_string_compact());
-    2
+    let pool = c02::pool();
+    let parse = |j: &J| -> Option<KStep> {
+        let step = c02::step_from_json(j)?;
+        let ks = KEYSPACES.iter().position(|k| Some(*k) == j.get("keyspace").and_then(|v| v.as_str())).unwrap_or(0);
+        Some(KStep { ks, step })
+    };
+    let history: Vec<KStep> = case.get("requests").and_then(|v| v.as_arr()).unwrap_or(&[]).iter().filter_map(parse).collect();
+    let in_flight = case.get("request_in_flight").and_then(parse);
+    let store = case.get("store").and_then(|v| v.as_str()).unwrap_or("");
+    let crash = case.get("crash_point").and_then(|v| v.as_str()).unwrap_or("");
+    // "... after storage wrote k document(s) ..."
+    let k: usize = crash
+        .split("wrote ")
+        .nth(1)
+        .and_then(|r| r.split_whitespace().next())
+        .and_then(|n| n.parse().ok())
+        .unwrap_or(1);
+    let al = alphabet(&pool, true);
+    let mut st = Stats::default();
+    match (store, &in_flight) {
+        ("sqlite-file", _) | ("lmdb", _) => {
+            let backend: &'static str = if store == "lmdb" { "lmdb" } else { "sqlite-file" };
+            persistent_case(&pool, backend, 999_999, &history, in_flight.as_ref().map(|s| (s, k)), &mut st);
+        },
+        ("MemStore", None) => {
+            vkit::e2::block_on_fresh(execute_in_memory(&pool, &al, "MemStore", Arc::new(MemStore::default()), &history, &mut st));
+        },
+        ("MemStore", Some(next)) => {
+            vkit::e2::block_on_fresh(execute_mid_request(&pool, "MemStore", Arc::new(MemStore::default()), &history, next, k, &mut st));
+        },
+        (_, None) => {
+            vkit::e2::block_on_fresh(execute_in_memory(&pool, &al, "harness map store", Arc::new(MapStore::default()), &history, &mut st));
+        },
+        (_, Some(next)) => {
+            vkit::e2::block_on_fresh(execute_mid_request(&pool, "harness map store", Arc::new(MapStore::default()), &history, next, k, &mut st));
+        },
+    }
+    println!("store {store:?}, {} request(s), crash point: {crash}", history.len());
+    for f in &st.found {
+        println!("{}: {}", f.key, f.what);
+    }
+    (!st.found.is_empty()) as i32
 }
